@@ -34,6 +34,8 @@ struct watch {
 	int wd;
 	int oneshot;
 	int gen;
+	int is_dir;         /* watches a directory (dir1, dir2, scratch) */
+	int gone_ok;        /* the watched object was deleted: the kernel removes the watch (IN_IGNORED) */
 	char path[300];
 };
 static struct inst I[NI];
@@ -84,6 +86,11 @@ static int reg_watch(int wi, int inst, const char *path, uint32_t mask)
 	w->reg = 1;
 	w->wd = w->p->wd;
 	w->oneshot = !!(mask & IN_ONESHOT);
+	w->gone_ok = 0;
+	{
+		struct stat sb;
+		w->is_dir = stat(path, &sb) == 0 && S_ISDIR(sb.st_mode);
+	}
 	return 0;
 }
 
@@ -174,6 +181,9 @@ static void watch_cb(void *_ck, struct inotify_event *ev)
 			ck->w, w->wd, ev->wd, ev->mask, ev->len ? ev->name : "", r->wd, r->mask, r->name);
 	rec_next++;
 	my_inst = w->inst;
+	if ((ev->mask & IN_IGNORED) && !w->oneshot && !w->gone_ok)
+		mc_fail("inotify-ignored", "watch %d on %s was removed from the kernel (IN_IGNORED) although its object still exists and nobody unregistered it",
+			ck->w, w->path);
 	if ((ev->mask & IN_IGNORED) || w->oneshot) {
 		/* dropped from the instance before its handler runs; the memory is ours again */
 		if (in_tree(I[my_inst].p, w->p))
@@ -192,11 +202,35 @@ static void watch_cb(void *_ck, struct inotify_event *ev)
 	if (!W[NW - 1].reg && !W[NW - 1].p && I[my_inst].reg) { menu[n] = 3; arg[n++] = my_inst; }
 	for (k = 0; k < NI; k++)
 		if (I[k].reg && I[k].gen < 3) { menu[n] = 4; arg[n++] = k; }
+	for (k = 0; k < NW; k++)
+		if (W[k].reg && W[k].inst == my_inst && I[my_inst].reg && W[k].is_dir && !W[k].oneshot) { menu[n] = 5; arg[n++] = k; break; }
 	c = mc_choose(n, MC_ACTION, "cb-watch");
 	switch (menu[c]) {
 	case 1: mc_obs("unreg-w%d", arg[c]); unreg_watch(arg[c]); break;
 	case 2: mc_obs("unreg-i%d", arg[c]); unreg_inst(arg[c]); break;
 	case 3: mc_obs("reg-w%d", NW - 1); reg_watch(NW - 1, arg[c], dir2, IN_CREATE | IN_DELETE); break;
+	case 5: {
+		/* a second watch for an object this instance watches already (other spelling of the path): refused, and the
+		 * existing watch must not suffer */
+		struct iv_inotify_watch *x = malloc(sizeof(*x));
+		static char dup[420];
+		int ret;
+		memset(x, 0xbe, sizeof(*x));
+		IV_INOTIFY_WATCH_INIT(x);
+		snprintf(dup, sizeof(dup), "%s/.", W[arg[c]].path);
+		x->inotify = I[my_inst].p;
+		x->pathname = dup;
+		x->mask = W[arg[c]].p->mask;
+		x->cookie = NULL;
+		x->handler = watch_cb;
+		ret = iv_inotify_watch_register(x);
+		mc_obs("dup-watch-of-w%d=%d", arg[c], ret);
+		if (ret == 0)
+			mc_fail("try-should-fail", "a second watch with the watch descriptor of watch %d was accepted", arg[c]);
+		memset(x, 0xbe, sizeof(*x));
+		free(x);
+		break;
+	}
 	case 4: {
 		/* unregister an instance and register the very same struct again (objects may be re-registered after
 		 * unregistration; nothing says IV_INOTIFY_INIT has to be repeated) */
@@ -260,6 +294,14 @@ static void touch(const char *path)
 	}
 }
 
+static void object_gone(const char *path)
+{
+	int k;
+	for (k = 0; k < NW; k++)
+		if (W[k].p && !strcmp(W[k].path, path))
+			W[k].gone_ok = 1;
+}
+
 static void fsop(int op)
 {
 	char a[400], b[400];
@@ -269,8 +311,8 @@ static void fsop(int op)
 	case 2: snprintf(a, sizeof(a), "%s/f1", dir1); touch(a); break;                     /* write existing */
 	case 3: snprintf(a, sizeof(a), "%s/f1", dir1); snprintf(b, sizeof(b), "%s/g1", dir1); rename(a, b); break;
 	case 4: snprintf(a, sizeof(a), "%s/f1", dir1); snprintf(b, sizeof(b), "%s/f1", dir2); rename(a, b); break;
-	case 5: snprintf(a, sizeof(a), "%s/f1", dir1); unlink(a); break;
-	case 6: rmdir(dir2); break;
+	case 5: snprintf(a, sizeof(a), "%s/f1", dir1); if (unlink(a) == 0) object_gone(a); break;
+	case 6: if (rmdir(dir2) == 0) object_gone(dir2); break;
 	}
 	mc_obs("fs%d", op);
 }
